@@ -230,6 +230,17 @@ func checkRedecode(r *ev.Run, ver, level int, s string, recv any) {
 	if level > 0 {
 		again[0] = seeds(ver)[level]
 	}
+	// the complementary piece: the metrics of the valid vector that the failed input did not record
+	m := lang.Scan(ver, level, splitPath(ver, s))
+	if full := lang.Classify(ver, level, again[0]); full.Accept && len(m.Seen) > 0 {
+		rest := map[string]string{}
+		for k, v := range full.Tokens {
+			if _, seen := m.Seen[k]; !seen {
+				rest[k] = v
+			}
+		}
+		again = append(again, canonicalWritten(ver, level, full.Ver, rest))
+	}
 	for _, a := range again {
 		obj, err, pan := lib.Decode(recv, a)
 		if pan != "" {
@@ -240,6 +251,14 @@ func checkRedecode(r *ev.Run, ver, level int, s string, recv any) {
 		if (obj == nil) == (err == nil) {
 			r.Violate(ev.Violation{Kind: "object-xor-error", Case: with(strCase(ver, level, s), "second_input", a), Observed: fmt.Sprintf("object nil=%v, error nil=%v", obj == nil, err == nil), Expected: "exactly one of object and error"})
 			return
+		}
+		if obj != nil && lang.Classify(ver, level, a).Accept {
+			// whatever a used decoder accepts must be what a fresh decoder returns for that input
+			if fresh, ferr, _ := lib.DecodeNew(ver, level, a); ferr == nil && fresh != nil {
+				if x, y := observables(obj), observables(fresh); x != y {
+					r.Violate(ev.Violation{Kind: "reused-decoder-returns-other-object", Case: with(strCase(ver, level, s), "second_input", a), Observed: x, Expected: y + "  (what a fresh decoder returns for the second input)"})
+				}
+			}
 		}
 	}
 }
@@ -1083,6 +1102,57 @@ func longInputs(r *ev.Run, G *gprops, gs *gstats, vers []int) {
 	}
 }
 
+// lengthBoundaries: inputs whose length sits on / next to a power of two, ending in every short
+// tail over a byte alphabet with ASCII, separators, NUL and UTF-8 lead and continuation bytes
+// (a truncation or chunking helper that mis-handles one length or one byte class).
+func lengthBoundaries(r *ev.Run, G *gprops, gs *gstats, vers []int, thorough bool) {
+	tailBytes := []byte{'A', '/', ':', 0x00, 0x80, 0xBF, 0xC3, 0xE2, 0xF0, 0xFF}
+	var tails []string
+	tails = append(tails, "")
+	for _, a := range tailBytes {
+		tails = append(tails, string([]byte{a}))
+		for _, b := range tailBytes {
+			tails = append(tails, string([]byte{a, b}))
+			if thorough {
+				for _, c := range tailBytes {
+					tails = append(tails, string([]byte{a, b, c}))
+				}
+			}
+		}
+	}
+	var lens []int
+	for p := 8; p <= 4096; p *= 2 {
+		lens = append(lens, p-2, p-1, p, p+1)
+	}
+	if thorough {
+		lens = append(lens, 65535, 65536, 65537)
+	}
+	var n int64
+	for _, ver := range vers {
+		ver := ver
+		valid := seeds(ver)[0]
+		safeParallel(r, len(lens), func(li int) {
+			L := lens[li]
+			pad := func(prefix string, fill byte) string {
+				if len(prefix) >= L {
+					return prefix[:L]
+				}
+				return prefix + strings.Repeat(string([]byte{fill}), L-len(prefix))
+			}
+			prefixes := []string{pad("", 'A'), pad("", 0x80), pad(valid+"/ZZ:", 'A'), pad(valid+"/AV:", 'y'), pad(valid+"/", 'é'-0x100+0x100)}
+			for _, p := range prefixes {
+				for _, t := range tails {
+					for d := 0; d < 3; d++ {
+						judge(r, G, gs, ver, d, p+t)
+					}
+					atomic.AddInt64(&n, 1)
+				}
+			}
+		})
+	}
+	r.Add("length_boundary_inputs", n)
+}
+
 func finishGraphStats(r *ev.Run, gs *gstats) {
 	r.Set("strings_executed", atomic.LoadInt64(&gs.strings))
 	r.Set("strings_accepted", atomic.LoadInt64(&gs.accepted))
@@ -1095,4 +1165,248 @@ func finishGraphStats(r *ev.Run, gs *gstats) {
 	if n := atomic.LoadInt64(&gs.leftBehind); n > 0 {
 		r.Set("distinct_objects_left_behind_by_failed_decodes", n)
 	}
+}
+
+// ---------------------------------------------------------------------------------------------
+// pumping: a valid (or empty) prefix followed by k repetitions of one pumpable token, for many k.
+// The decoder's residue is a boolean in the reference; an implementation that counts, caps or
+// chunks its input differs only at particular lengths (a wrapped counter, a split limit).
+
+func pumpCounts(thorough bool) []int {
+	var ks []int
+	for k := 1; k <= 300; k++ {
+		ks = append(ks, k)
+	}
+	ks = append(ks, 511, 512, 513, 767, 768, 1023, 1024, 1025, 4095, 4096, 4097, 65535, 65536, 65537)
+	if thorough {
+		ks = append(ks, 131071, 131072, 131073, 1<<20, 1<<20+1)
+	}
+	return ks
+}
+
+func pumping(r *ev.Run, G *gprops, gs *gstats, vers []int, thorough bool) {
+	var n int64
+	for _, ver := range vers {
+		for level := 0; level < 3; level++ {
+			var prefixes []string
+			for _, s := range seeds(ver) {
+				if lang.Classify(ver, level, s).Accept {
+					prefixes = append(prefixes, s)
+				}
+			}
+			if ver == 3 {
+				prefixes = append(prefixes, "CVSS:3.1")
+			}
+			// pumpable tokens: a foreign name, a higher-level / other-version name, an empty token,
+			// a malformed token, and (after a valid vector) a duplicate of its last token
+			toks := []string{"ZZ:N", "", "AV", "Au:N", "MAV:N", "E:F"}
+			ks := pumpCounts(thorough)
+			for _, p := range prefixes {
+				p := p
+				last := p[strings.LastIndex(p, "/")+1:]
+				all := append(append([]string{}, toks...), last)
+				safeParallel(r, len(all), func(ti int) {
+					var b strings.Builder
+					b.WriteString(p)
+					done := 0
+					for _, k := range ks {
+						for ; done < k; done++ {
+							b.WriteString("/" + all[ti])
+						}
+						judge(r, G, gs, ver, level, b.String())
+						atomic.AddInt64(&n, 1)
+					}
+				})
+			}
+		}
+	}
+	r.Add("pumped_inputs", n)
+}
+
+// caseVariants: every valid vector token with its name or its code in every other letter case,
+// at every position of a seed vector (a lookup made case-insensitive for one metric only).
+func caseVariants(r *ev.Run, G *gprops, gs *gstats, vers []int) {
+	cases := func(s string) []string {
+		out := map[string]bool{}
+		n := len(s)
+		for mask := 0; mask < 1<<uint(n); mask++ {
+			b := []byte(s)
+			for i := 0; i < n; i++ {
+				if mask&(1<<uint(i)) != 0 {
+					b[i] = byte(strings.ToLower(string(b[i]))[0])
+				} else {
+					b[i] = byte(strings.ToUpper(string(b[i]))[0])
+				}
+			}
+			if string(b) != s {
+				out[string(b)] = true
+			}
+		}
+		var r []string
+		for k := range out {
+			r = append(r, k)
+		}
+		sort.Strings(r)
+		return r
+	}
+	var n int64
+	for _, ver := range vers {
+		for level := 0; level < 3; level++ {
+			for _, seed := range seeds(ver) {
+				v := lang.Classify(ver, level, seed)
+				if !v.Accept {
+					continue
+				}
+				for _, m := range spec.UpTo(ver, level) {
+					if _, present := v.Tokens[m.Name]; !present {
+						continue
+					}
+					for _, c := range m.Codes {
+						var variants []string
+						for _, cv := range cases(c.Code) {
+							variants = append(variants, m.Name+":"+cv)
+						}
+						for _, nv := range cases(m.Name) {
+							variants = append(variants, nv+":"+c.Code)
+						}
+						for _, tokText := range variants {
+							t := copyTok(v.Tokens)
+							delete(t, m.Name)
+							// the variant token in the metric's canonical position
+							var parts []string
+							if ver == 3 {
+								parts = append(parts, "CVSS:"+v.Ver)
+							}
+							for _, mm := range spec.UpTo(ver, level) {
+								if mm.Name == m.Name {
+									parts = append(parts, tokText)
+								} else if code, ok := t[mm.Name]; ok {
+									parts = append(parts, mm.Name+":"+code)
+								}
+							}
+							judge(r, G, gs, ver, level, strings.Join(parts, "/"))
+							n++
+						}
+					}
+				}
+			}
+		}
+	}
+	r.Add("case_variant_inputs", n)
+}
+
+// ---------------------------------------------------------------------------------------------
+// decoder re-use.  The properties speak of decoders obtained from a constructor; what a decoder
+// that has already decoded something does with a second input is not specified, and the pinned
+// library mostly rejects it (the metric names of the first input are remembered).  One direction
+// is nevertheless implied by C07-C10 for anything a decoder ever accepts: an accepted string is
+// well-formed and the returned object holds exactly what that string says.  So: whenever a second
+// Decode on a used decoder returns an object, the reference must accept that string and the
+// object must be observably equal to a fresh decode of it.  Second inputs always contain every
+// base metric, which excludes the pinned library's incremental ("instalment") decoding.
+
+func reuseInputs(ver, level int) []string {
+	var out []string
+	add := func(tok map[string]string, verLabel string) {
+		out = append(out, canonicalWritten(ver, level, verLabel, tok))
+	}
+	for _, s := range seeds(ver) {
+		v := lang.Classify(ver, 2, s)
+		if !v.Accept {
+			continue
+		}
+		tok := lang.Project(ver, level, v.Tokens)
+		add(tok, v.Ver)
+		if ver == 3 {
+			other := "3.0"
+			if v.Ver == "3.0" {
+				other = "3.1"
+			}
+			add(tok, other)
+		}
+		// every optional metric dropped in turn (v3: still valid; v2: an incomplete group), and the
+		// whole optional groups dropped
+		for _, m := range spec.UpTo(ver, level) {
+			if m.Level == 0 {
+				continue
+			}
+			if _, ok := tok[m.Name]; ok {
+				t := copyTok(tok)
+				delete(t, m.Name)
+				add(t, v.Ver)
+			}
+		}
+		for lv := 1; lv <= level; lv++ {
+			add(lang.Project(ver, lv-1, tok), v.Ver)
+		}
+		// other values for every metric
+		for _, m := range spec.UpTo(ver, level) {
+			if _, ok := tok[m.Name]; !ok {
+				continue
+			}
+			for _, c := range m.Codes {
+				if c.Code != tok[m.Name] {
+					t := copyTok(tok)
+					t[m.Name] = c.Code
+					add(t, v.Ver)
+					break
+				}
+			}
+		}
+	}
+	return out
+}
+
+func reusePhase(r *ev.Run, vers []int) {
+	var n, accepted int64
+	for _, ver := range vers {
+		for level := 0; level < 3; level++ {
+			ins := reuseInputs(ver, level)
+			// first inputs: every second input (successful or not), plus inputs rejected before
+			// anything is recorded
+			firsts := append(append([]string{}, ins...), "", "/", "XX:Y", "n/a", "CVSS:3.1", "CVSS:3.1/XX:Y", "CVSS:4.0/AV:N", "CVSS:3.1/AV:Q")
+			level := level
+			ver := ver
+			safeParallel(r, len(firsts), func(fi int) {
+				for _, second := range ins {
+					d := lib.New(ver, level)
+					_, _, pan := lib.Decode(d, firsts[fi])
+					if pan != "" {
+						continue // C12's business
+					}
+					obj, err, pan := lib.Decode(d, second)
+					atomic.AddInt64(&n, 1)
+					cs := map[string]any{"cvss": ver, "decoder": spec.LevelNames[level], "first_input": firsts[fi], "second_input_on_the_same_decoder": second}
+					if pan != "" {
+						r.Violate(ev.Violation{Kind: "second-decode-panics", Case: cs, Observed: pan, Expected: "an error or an object"})
+						continue
+					}
+					if err != nil || obj == nil {
+						continue
+					}
+					atomic.AddInt64(&accepted, 1)
+					ref := lang.Classify(ver, level, second)
+					if !ref.Accept {
+						r.Violate(ev.Violation{Kind: "reused-decoder-accepts-ill-formed-vector", Case: cs, Observed: "accepted", Expected: "rejected: " + strings.Join(ref.DefectList(), ", ")})
+						continue
+					}
+					fresh, ferr, _ := lib.DecodeNew(ver, level, second)
+					if ferr != nil || fresh == nil {
+						continue
+					}
+					if a, b := observables(obj), observables(fresh); a != b {
+						r.Violate(ev.Violation{Kind: "reused-decoder-returns-other-object", Case: cs, Observed: a, Expected: b + "  (what a fresh decoder returns for the second input)"})
+						continue
+					}
+					for lv := 0; lv < level; lv++ {
+						if a, b := lib.Observe(lib.Sub(obj, lv)), lib.Observe(lib.Sub(fresh, lv)); a != b {
+							r.Violate(ev.Violation{Kind: "reused-decoder-returns-other-object", Case: with(cs, "view", spec.LevelNames[lv]), Observed: a.String(), Expected: b.String()})
+						}
+					}
+				}
+			})
+		}
+	}
+	r.Add("reuse_second_decodes", n)
+	r.Add("reuse_second_decodes_accepted", accepted)
 }
